@@ -122,6 +122,10 @@ def expand_isinstance_names(w, names):
 
 def elements_type(s, x):
     """type set of every element of container x, from a forall fact, else None"""
+    if isinstance(x, tuple) and len(x) == 5 and x[0] == "comp" and isinstance(x[3], tuple) and x[3][:1] == ("elem",):
+        base = x[3][1]
+        if x[3] == Elem(base, x[4]):
+            return elements_type(s, base)  # [e for e in base]: same elements
     for f in s.closure():
         if f[0] == "forall" and f[1] == x:
             el = Elem(f[1], f[2])
@@ -264,6 +268,11 @@ def b_dict(c):
 @builtin("all", "any")
 def b_all(c):
     x = c.args[0]
+    if is_lit(x) and x[1] in ("list", "tuple", "set"):
+        tvs = [c.s.truth_value(i) for i in x[2]]
+        if all(t is not None for t in tvs):
+            c.ret(C(all(tvs) if c.callee == "builtin:all" else any(tvs)), pure=False)
+            return
     if x[0] != "comp":
         c.need_type(x, CONTAINERS | {"generator"}, "TypeError", "all()/any() of a value that may not be iterable")
     c.ret(None, pure=False)
@@ -341,7 +350,12 @@ def b_range(c):
     c.ret(None, ("type", c.term, frozenset(["list"])), pure=False)
 
 
-@builtin("zip", "map", "filter")
+@builtin("zip")
+def b_zip_(c):
+    c.ret(None, pure=False)
+
+
+@builtin("map", "filter")
 def b_zip(c):
     c.ret(Fresh(c.callee[8:]), pure=False)
 
@@ -471,6 +485,17 @@ def b_vars(c):
 
 @builtin("next")
 def b_next(c):
+    x = c.args[0]
+    if is_call(x, "builtin:iter") and x[2]:
+        x = x[2][0]
+    if is_lit(x) and x[1] in ("list", "tuple"):
+        if x[2]:
+            c.ret(x[2][0], pure=False)
+        elif len(c.args) > 1:
+            c.ret(c.args[1], pure=False)
+        else:
+            c.rz("StopIteration", "next() on an empty iterator", pure=False)
+        return
     c.rz("StopIteration", "next() on an exhausted iterator", pure=False)
     c.ret(Fresh("next"), pure=False)
 
@@ -823,6 +848,13 @@ def is_key_type(w, t):
     return False
 
 
+def key_type_names(w, kind):
+    """type names of public ('pub') / private ('priv') / all ('any') ed25519 key objects,
+    including the repo's own subclasses"""
+    base = {"pub": [ED_PUB], "priv": [ED_PRIV], "any": [ED_PUB, ED_PRIV]}[kind]
+    return expand_isinstance_names(w, base)
+
+
 def recv_check(c, allowed, mname, strict=True):
     """AttributeError unless the receiver's type is known to own the method"""
     ts = c.types(c.recv)
@@ -911,8 +943,31 @@ def m_join(c):
 @method("format")
 def m_format(c):
     recv_check(c, frozenset(["str"]), "format")
-    c.rz("IndexError", "format() placeholder without argument")
-    c.rz("KeyError", "format() placeholder without argument")
+    ok = False
+    if is_const(c.recv) and isinstance(c.recv[2], str):
+        import string
+
+        try:
+            fields = [f for _lit, f, _spec, _conv in string.Formatter().parse(c.recv[2]) if f is not None]
+            auto = 0
+            ok = True
+            names = {n for n, _v in c.kwargs}
+            for f in fields:
+                head = f.split(".")[0].split("[")[0]
+                if head == "":
+                    ok = ok and auto < len(c.args)
+                    auto += 1
+                elif head.isdigit():
+                    ok = ok and int(head) < len(c.args)
+                else:
+                    ok = ok and head in names
+                if "." in f or "[" in f:
+                    ok = False
+        except ValueError:
+            ok = False
+    if not ok:
+        c.rz("IndexError", "format() placeholder without argument")
+        c.rz("KeyError", "format() placeholder without argument")
     c.ret(None, ("type", c.term, frozenset(["str"])))
 
 
@@ -1013,7 +1068,7 @@ def m_finalize(c):
 def m_verify(c):
     ts = c.types(c.recv)
     if ts is None or not all(is_key_type(c.w, t) for t in ts):
-        c.rz("AttributeError", "method .verify() on a value that may not be a public key", [("nottype", c.recv, frozenset([ED_PUB]))], pure=False)
+        c.rz("AttributeError", "method .verify() on a value that may not be a public key", [("nottype", c.recv, key_type_names(c.w, "pub"))], pure=False)
     for a in c.args[:2]:
         at = c.types(a)
         if at is None or not at <= BYTESLIKE:
@@ -1029,7 +1084,7 @@ def m_verify(c):
 def m_sign(c):
     ts = c.types(c.recv)
     if ts is None or not all(is_key_type(c.w, t) for t in ts):
-        c.rz("AttributeError", "method .sign() on a value that may not be a private key", [("nottype", c.recv, frozenset([ED_PRIV]))], pure=False)
+        c.rz("AttributeError", "method .sign() on a value that may not be a private key", [("nottype", c.recv, key_type_names(c.w, "priv"))], pure=False)
     x = c.args[0] if c.args else None
     if x is not None:
         c.need_type(x, BYTESLIKE, "TypeError", "sign() of a non-bytes value")
@@ -1040,7 +1095,7 @@ def m_sign(c):
 def m_public_key(c):
     ts = c.types(c.recv)
     if ts is None or not all(is_key_type(c.w, t) for t in ts):
-        c.rz("AttributeError", "method .public_key() on a value that may not be a private key", [("nottype", c.recv, frozenset([ED_PRIV]))], pure=False)
+        c.rz("AttributeError", "method .public_key() on a value that may not be a private key", [("nottype", c.recv, key_type_names(c.w, "priv"))], pure=False)
     c.ret(None, ("type", c.term, frozenset([ED_PUB])))
 
 
@@ -1048,7 +1103,7 @@ def m_public_key(c):
 def m_key_bytes(c):
     ts = c.types(c.recv)
     if ts is None or not all(is_key_type(c.w, t) for t in ts):
-        c.rz("AttributeError", "key serialization on a value that may not be a key", [("nottype", c.recv, frozenset([ED_PUB, ED_PRIV]))], pure=False)
+        c.rz("AttributeError", "key serialization on a value that may not be a key", [("nottype", c.recv, key_type_names(c.w, "any"))], pure=False)
     if not c.callee.endswith("_raw"):
         vals = list(c.args) + [v for _n, v in c.kwargs]
         if not all(v[0] in ("global", "call") for v in vals):
